@@ -22,7 +22,7 @@ from pyvc.loops import LoopSpec
 from .base import Contract, Call
 from .queries import PresenceTest, presence_formula, maxsnap_of
 
-T = ('C02',)
+T = ('C02', 'C08')          # (the accumulative-mode variants are also what C08's "all snapshot queries of C02 follow that presence" asks for)
 MAPS = {'neighbors': 'adj', 'neighbors_iter': 'adj', 'successors_iter': 'succ', 'predecessors_iter': 'pred',
         'successors': 'succ', 'predecessors': 'pred',
         'degree_iter': None, 'in_degree_iter': 'pred', 'out_degree_iter': 'succ'}
